@@ -565,6 +565,15 @@ Proof.
   exact (match_node_transparent g (scope g) Hok toks Htoks rx fuel r s e [] eq_refl m H).
 Qed.
 
+(** ... for every larger fuel too ([Pem.FuelMono]) *)
+Theorem prune_transparent_fuel g : hints_sound_b g = true ->
+  forall toks rx fuel fuel' s e m, toks_ok g toks -> (fuel <= fuel')%nat ->
+    parse_root_ref g toks rx fuel s e = ROk m -> parse_root g toks rx fuel' s e = ROk m.
+Proof.
+  intros Hok toks rx fuel fuel' s e m Htoks Hle H.
+  eapply parse_root_fuel_mono; [exact Hle|exact (prune_transparent g Hok toks rx fuel s e m Htoks H)|discriminate].
+Qed.
+
 (** ... and so does the interpreter with pruning switched off *)
 Theorem ref_refines_np g toks rx fuel s e m :
   parse_root_ref g toks rx fuel s e = ROk m -> parse_root_np g toks rx fuel s e = ROk m.
